@@ -89,7 +89,7 @@ def run_unit(name, factory, canaries=True, rlimit=30):
             out['canary_wall_s'] = rc['wall_s']
             if cc['infra']:
                 out['infra'].append('canary run: ' + cc['infra'][0]['message'][:300])
-            elif not expected:
+            elif not expected and n > 0:
                 out['infra'].append('canary run generated no canaries')
             elif missing:
                 out['infra'].append('VACUITY: `ensures false` verified for %s (contradictory precondition or axiom)' % missing)
